@@ -301,7 +301,8 @@ def check_dup(cx, facts, rep):
             conts = [ev for ev in fw.events if ev.kind == 'exit' and ev.how == 'continue']
             for c in conts:
                 at = [a for a in facts.atoms(c.ctx, fw)]
-                if not any((a[0] == 'cond' and 't == Trait::Into' in a[1]) or (a[0] == 'eq' and a[2] == ('path', 'Trait::Into') and a[3] is True) for a in at):
+                if not any((a[0] == 'cond' and 't == Trait::Into' in a[1]) or (a[0] == 'eq' and a[2] == ('path', 'Trait::Into') and a[3] is True)
+                           or (a[0] == 'cond' and '.is_ident("educe")' in a[1] and a[2] is False) for a in at):   # skipping a non-educe attribute
                     ok = False
             if ok:
                 rep.ok('DUP', fn.qname + '|trait-twice')
